@@ -33,6 +33,10 @@ EXPLANATION = (
     'get_target_dir(X) in backends.py / ninjabackend.py, X is Y, and with get_target_private_dir(X) only under isinstance(Y, GeneratedList); '
     'R7 in every method of the BuildTarget family, after a write of the field get_filename() returns (or an overwrite of get_outputs()[0]) every path '
     're-assigns outputs[0] from filename before returning (classes for which generate_target writes no link statement are exempt). '
+    'R8 every character that write() puts between the quoted paths of a build line is escaped by the pattern ninja_quote uses for build lines or rejected by it. '
+    'Not decided (declared limits): equality of output paths modulo normalisation (`x/o` vs `./x/o`: the registry compares the strings it is given); files the backend '
+    'creates itself at configure time (library alias symlinks) against statement outputs; arithmetic agreement of the unity-file count in _determine_ext_objs with the '
+    'chunking loop of generate_unity_files; path identity tests in the legacy Fortran scanner (samefile vs ==). '
     'Does NOT decide acyclicity, existence of inputs, reachability from `all` of a concrete project, whether the guard under which a '
     'rule is defined (language present, machine is AIX...) agrees with the guard under which it is used, or whether a backend utility target that is '
     'neither reserved nor guarded is acceptable (a collision is then still rejected at generation time by R1/R2, e.g. coverage-sonarqube).')
